@@ -156,11 +156,17 @@ C06Run(c, o, vOK, tag, r0) ==
       AllDevPars == DevParSpace(c) \cup ExmParSpace(c)
       ExplainsExists(par) ==
         LET x == ExistsOf(c, Eval(c, par)) IN x.err = o.exists.err.cls /\ x.val = o.exists.val
-      existsDev == ~existsOK /\ \E par \in AllDevPars : ExplainsExists(par)
+      (* the same deviations must also explain what Query returned: an Exists  *)
+      (* that needs other rules than the Query beside it is not a known finding *)
+      QueryUnder(D) ==
+        \E ch \in ChoiceSpace(c), pl \in Policies :
+           QueryMatches(c, [cancelAt |-> 0, choice |-> ch, pol |-> pl, dev |-> D, exm |-> FALSE], o)
+      DevExplains(par) == ExplainsExists(par) /\ QueryUnder(par.dev)
+      existsDev == ~existsOK /\ \E par \in AllDevPars : DevExplains(par)
   IN (IF firstOK THEN {} ELSE {"C06.first" \o tag})
      \cup (IF existsOK THEN {}
            ELSE IF existsDev
-           THEN {"known." \o d \o ".C06.exists" \o tag : d \in (CHOOSE par \in AllDevPars : ExplainsExists(par)).dev}
+           THEN {"known." \o d \o ".C06.exists" \o tag : d \in (CHOOSE par \in AllDevPars : DevExplains(par)).dev}
            ELSE {"C06.exists" \o tag})
      \cup (IF matchOK THEN {} ELSE {"C06.match" \o tag})
      \cup (IF eomOK THEN {} ELSE {"C06.eom" \o tag})
